@@ -6,6 +6,9 @@ Case kinds (all exhaustively enumerated):
           raise at the use, at the hand-over to model A (st / objective method / suppset ...) or - after A has been
           completed - in do_math() all count as loud (outcomes x-raises / late-raise); a compiled program is the
           violation.
+  xop   : systematic operator table: operand class of A (decision, slice, scaled, affine, random, random slice,
+          rule, bi-affine) x the same classes of B x {+,-,*,@} x both operand orders, handed to A through st()
+          and through every objective method; same classification as x.
   redef : all ordered pairs of objective methods per front end: the second definition must raise (a late raise in
           do_math() is counted separately, a compiled program is the violation).
   redef2: full product first objective value (0, 0.0, -0.0, numpy zeros, False, 3, variable, affine, 0*affine,
@@ -30,7 +33,7 @@ PROPERTY = 'C17'
 TIMEOUT = 60.0
 CHUNK = 8
 FLOOR = 0.5
-RULE = ('x: every entry of the cross-model table x front-end pair; redef: ordered pairs of objective methods; redef2: first objective value x method pair x second value (ro, dro, lp, socp, gcp); nsobj: '
+RULE = ('x: every entry of the cross-model table x front-end pair; xop: operand class x operand class x operator x order x hand-over (st + every objective method) x front-end pair; redef: ordered pairs of objective methods; redef2: first objective value x method pair x second value (ro, dro, lp, socp, gcp); nsobj: '
         'expression class/shape x objective method; read: read-back method x (unsolved | {infeasible LP, unbounded LP, infeasible MILP, infeasible SOCP, '
         'infeasible robust counterpart, solved-then-infeasible} x interface supporting the class) x {ro, dro, lp, socp}; '
         'par: solver x params x front ends of P and Q; amb: constraint kind; il: every merge of the two build sequences x front-end pair x set kind. '
@@ -134,6 +137,13 @@ def gen_cases(tier, seed):
     for fa, fb in itertools.product(FES, repeat=2):
         for name in T.cross_entries(fa, fb):
             yield {'k': 'x', 'fa': fa, 'fb': fb, 'entry': name}
+    # (i') systematic operator table: operand class of A x operand class of B x operator x operand order x hand-over
+    for fa, fb in itertools.product(FES, repeat=2):
+        for ca, cb in itertools.product(T.OP_CLASSES, repeat=2):
+            for op in T.OP_OPS:
+                for order in ('AB', 'BA'):
+                    for ho in T.OP_HANDOVER[fa]:
+                        yield {'k': 'xop', 'fa': fa, 'fb': fb, 'ca': ca, 'cb': cb, 'op': op, 'order': order, 'ho': ho}
     # (iii) interleavings
     nops = 5 if thorough else 4
     merges = _merges(nops, nops)
@@ -176,7 +186,7 @@ def worker_init():
 
 
 def run_case(case):
-    return {'x': _run_x, 'redef': _run_redef, 'redef2': _run_redef2, 'readok': _run_readok, 'par': _run_par, 'nsobj': _run_nsobj, 'scobj': _run_scobj, 'amb': _run_amb,
+    return {'x': _run_x, 'xop': _run_xop, 'redef': _run_redef, 'redef2': _run_redef2, 'readok': _run_readok, 'par': _run_par, 'nsobj': _run_nsobj, 'scobj': _run_scobj, 'amb': _run_amb,
             'read': _run_read, 'il': _run_il}[case['k']](case)
 
 
@@ -203,6 +213,21 @@ def _run_x(case):
     return {'status': 'violation', 'ops': 28, 'sig': 'x|%s<-%s|%s|accepted,%s' % (fa, fb, name, how),
             'detail': 'model A (%s) accepted an operand of model B (%s) in `%s`; completing and compiling A gave a '
                       'program (no error anywhere)' % (fa, fb, name)}
+
+
+def _run_xop(case):
+    T = _W['T']
+    fa, fb, ca, cb, op, order, ho = (case[k] for k in ('fa', 'fb', 'ca', 'cb', 'op', 'order', 'ho'))
+    accepted, exc, A = T.run_op(fa, fb, ca, cb, op, order, ho)
+    if not accepted:
+        return {'status': 'pass', 'outcome': 'xop-raises:' + exc, 'ops': 27, 'nontrivial': True}
+    how = _after_accept(A)
+    if how != 'compiled':
+        return {'status': 'pass', 'outcome': 'late-raise(xop):' + how.split(':')[1], 'ops': 29, 'nontrivial': True}
+    expr = ('A.%s %s B.%s' % (ca, op, cb)) if order == 'AB' else ('B.%s %s A.%s' % (cb, op, ca))
+    return {'status': 'violation', 'ops': 29, 'sig': 'xop|%s<-%s|%s|%s|accepted,compiled' % (fa, fb, expr, ho),
+            'detail': 'expression %s mixing two models was handed to model A (%s) through %s(); A compiles'
+                      % (expr, fa, ho)}
 
 
 def _run_redef(case):
